@@ -202,7 +202,7 @@ def _(case, vio):
 
 
 def empty_advanced(spec):
-    if spec.get("op") != "getitem":
+    if spec.get("op", "getitem") != "getitem":
         return False
     for it in spec.get("items", []):
         if it.get("k") == "array" and _size(it["data"]) == 0:
@@ -226,7 +226,7 @@ def _any_true(x):
 
 @known("empty_advanced_index")
 def _(case, vio):
-    return empty_advanced(case.get("spec", {}))
+    return empty_advanced(case.get("spec", {})) or empty_advanced({"items": case.get("items", [])})
 
 
 @known("sort_records")
